@@ -238,7 +238,7 @@ static void c05_vars (long caseidx)
 
 static void mode_c05 (void)
 {
-  long c, total, N1 = n_single, Nr = vh_args.thorough ? 20000 : 2500, Nm = vh_args.thorough ? 20000 : 2500, Nl = vh_args.thorough ? 400 : 60;
+  long c, total, N1 = n_single, Nr = vh_args.thorough ? 120000 : 12000, Nm = vh_args.thorough ? 120000 : 12000, Nl = vh_args.thorough ? 1200 : 200;
   total = N1 + Nr + Nm + Nl + 1;
   for (c = 0; c < total; c++) {
     ProgSpec ps; VhRng r; char desc[100];
@@ -377,7 +377,7 @@ static void c13_boundary (long caseidx)
 
 static void mode_c13 (void)
 {
-  long c, N1 = n_single, Np = vh_args.thorough ? n_pairs : 3000, Nr = vh_args.thorough ? 100000 : 12000, total = N1 + Np + Nr + 1;
+  long c, N1 = n_single, Np = vh_args.thorough ? n_pairs : 8000, Nr = vh_args.thorough ? 500000 : 50000, total = N1 + Np + Nr + 1;
   if (Np > n_pairs) Np = n_pairs;
   for (c = 0; c < total; c++) {
     ProgSpec ps; VhRng r; char desc[100]; int ok = 1;
@@ -471,7 +471,7 @@ static void c14_run (const char *text, size_t len, long caseidx, const char *kin
 
 static void mode_c14 (void)
 {
-  long c, total = vh_args.thorough ? 400000 : 40000;
+  long c, total = vh_args.thorough ? 3000000 : 300000;
   for (c = 0; c < total; c++) {
     VhRng r; VhBuf b = { 0 }; ProgSpec ps; char desc[60]; int kind;
     if (!vh_my_case (c)) continue;
@@ -587,7 +587,7 @@ static void c15_one (ProgSpec *ps, long caseidx, VhRng *r)
 
 static void mode_c15 (void)
 {
-  long c, N1 = n_single, Nr = vh_args.thorough ? 60000 : 8000, total = N1 + Nr;
+  long c, N1 = n_single, Nr = vh_args.thorough ? 600000 : 80000, total = N1 + Nr;
   for (c = 0; c < total; c++) {
     ProgSpec ps; VhRng r; char desc[100]; int ok = 1, i;
     if (!vh_my_case (c)) continue;
@@ -787,7 +787,7 @@ static void c17_hash_one (ProgSpec *ps, long caseidx)
 
 static void mode_c17 (int hash_only)
 {
-  long c, N1 = n_single, Nr = vh_args.thorough ? 12000 : 1500, total = N1 + Nr;
+  long c, N1 = n_single, Nr = vh_args.thorough ? 40000 : 6000, total = N1 + Nr;
   if (hash_only) { N1 = n_single; Nr = vh_args.thorough ? 3000 : 500; total = N1 + Nr; }
   for (c = 0; c < total; c++) {
     ProgSpec ps; VhRng r; char desc[100]; int ok = 1;
